@@ -944,11 +944,14 @@ class Inliner(object):
             # the helper in the same normal form as a routine viewed on its
             # own (named booleans read back into the tests they feed)
             key = id(callee.raw)
-            if key not in _FOLDED_RAW:
-                _FOLDED_RAW[key] = fold_test_flags(sink_flag_return(
-                    fold_conditional_flag(fold_dict_calls(
-                        copy.deepcopy(callee.raw)))))
-            raw = _FOLDED_RAW[key]
+            # (the source tree is kept next to its folded form: an id can
+            # be given to another tree once the first one is collected)
+            if key not in _FOLDED_RAW or \
+                    _FOLDED_RAW[key][0] is not callee.raw:
+                _FOLDED_RAW[key] = (callee.raw, fold_test_flags(
+                    sink_flag_return(fold_conditional_flag(fold_dict_calls(
+                        copy.deepcopy(callee.raw))))))
+            raw = _FOLDED_RAW[key][1]
         self.counter += 1
         tag = '%s__%d' % (callee.name.strip('_'), self.counter)
         params = [a.arg for a in raw.args.posonlyargs + raw.args.args]
